@@ -118,6 +118,14 @@ Proof. split; reflexivity. Qed.
    2. L1 info leaves: consecutive indices in chain order, contract leaf layout, total lookups
    ==================================================================================================== *)
 
+(* each leaf the node builds is the GlobalExitRoot contract's leaf: ger = keccak(mainnet, rollup), hash = getLeafValue(ger, parent hash, timestamp) *)
+Lemma leaf_hash_is_contract_leaf ger parent ts : leaf_hash ger parent ts = l1info_leaf_value ger parent ts.
+Proof. unfold leaf_hash, l1info_leaf_value. reflexivity. Qed.
+Lemma ger_hash_is_contract_ger mer rer : ger_hash mer rer = ger_of mer rer.
+Proof. unfold ger_hash, ger_of. reflexivity. Qed.
+(* from here on the hashes are black boxes (conversion must never try to run Keccak on symbolic input) *)
+Opaque ger_hash leaf_hash nodeN keccakN ger_of l1info_leaf_value.
+
 Definition klt (a b : N * N) : Prop := key_lt a b = true.
 Lemma key_lt_spec a b : klt a b <-> (fst a < fst b \/ (fst a = fst b /\ snd a < snd b)).
 Proof.
@@ -292,7 +300,7 @@ Proof.
       * rewrite map_app. cbn [map]. apply NoDup_app_snoc; [exact H4|].
         intros Hin. apply in_map_iff in Hin as (y & Ey & Hy).
         pose proof (existsb_false _ _ Hex y Hy) as E. cbn beta in E. apply orb_false_iff in E as [_ E].
-        apply N.eqb_neq in E. apply E. exact Ey.
+        apply N.eqb_neq in E. apply E. unfold row in Ey. cbn [l_ger] in Ey. exact Ey.
       * intros l Hin. apply in_app_or in Hin as [Hin|[<-|[]]]; [apply H5; exact Hin|]. split; reflexivity.
     + unfold idxrel. rewrite Ha, Hl, app_length. cbn [length]. unfold idxrel in Hrel. lia.
     + intros l Hin. rewrite Hl in Hin. apply in_app_or in Hin as [Hin|[<-|[]]]; [left; exact Hin|].
@@ -338,9 +346,14 @@ Proof.
     + split; [exact Hinv'|]. rewrite Hb', Hb1. reflexivity.
 Qed.
 
-(* blocks are handed over in increasing order (the driver's guarantee), update positions increase inside a block *)
+(* blocks are handed over in increasing order (the driver's guarantee); inside a block the log positions of the info
+   updates and of the batch verifications increase; rollup ids are uint32; the L1 info tree has room (< 2^32 leaves) *)
+Definition vb_posl (e : event) : list N := match e with EVerify b => [vb_pos b] | _ => [] end.
+Definition vb_small (e : event) : Prop := match e with EVerify b => vb_rid b <= mask32 | _ => True end.
 Definition block_ordered (st : lstate) (k : block) : Prop :=
-  (forall b, In b (d_blocks (st_db st)) -> fst b < k_num k) /\ StronglySorted N.lt (flat_map upd_pos (k_events k)).
+  (forall b, In b (d_blocks (st_db st)) -> fst b < k_num k) /\ StronglySorted N.lt (flat_map upd_pos (k_events k)) /\
+  StronglySorted N.lt (flat_map vb_posl (k_events k)) /\ Forall vb_small (k_events k) /\
+  (length (d_leaves (st_db st)) + length (flat_map upd_pos (k_events k)) < 2 ^ HEIGHT)%nat.
 
 Lemma last_leaf_index d : LInv d ->
   match last_leaf d with None => 0 | Some l => l_idx l + 1 end = N.of_nat (length (d_leaves d)).
@@ -355,7 +368,7 @@ Qed.
 Theorem process_block_LInv f st k r st' : LInv (st_db st) -> block_ordered st k ->
   process_block f st k = (r, st') -> LInv (st_db st').
 Proof.
-  intros Hinv [Hord Hpos] H. destruct r as [e|]; [rewrite (process_block_error_keeps_db _ _ _ _ _ H); exact Hinv|].
+  intros Hinv (Hord & Hpos & _) H. destruct r as [e|]; [rewrite (process_block_error_keeps_db _ _ _ _ _ H); exact Hinv|].
   unfold process_block in H.
   destruct (st_halted st); [discriminate|].
   destruct (big64 (k_num k)); [discriminate|].
@@ -418,16 +431,12 @@ Proof.
 Qed.
 
 (* each stored leaf is the GlobalExitRoot contract's leaf: ger = keccak(mainnet, rollup), hash = getLeafValue(ger, parent hash, timestamp) *)
-Lemma leaf_hash_is_contract_leaf ger parent ts : leaf_hash ger parent ts = l1info_leaf_value ger parent ts.
-Proof. reflexivity. Qed.
-Lemma ger_hash_is_contract_ger mer rer : ger_hash mer rer = ger_of mer rer.
-Proof. reflexivity. Qed.
 Theorem l1info_leaf_matches_contract ops : hist_ordered ops lstate_new ->
   forall l, In l (d_leaves (st_db (run_hist ops lstate_new))) ->
   l_ger l = ger_of (l_mer l) (l_rer l) /\ l_hash l = l1info_leaf_value (ger_of (l_mer l) (l_rer l)) (l_parent l) (l_ts l).
 Proof.
   intros Hord l Hl. pose proof (LInv_run ops lstate_new LInv_empty Hord) as [_ _ _ _ H5].
-  destruct (H5 l Hl) as [Hg Hh]. split; [exact Hg|]. rewrite Hh, Hg. reflexivity.
+  destruct (H5 l Hl) as [Hg Hh]. rewrite ger_hash_is_contract_ger in Hg. split; [exact Hg|]. rewrite Hh, leaf_hash_is_contract_leaf, Hg. reflexivity.
 Qed.
 (* the parent hash and timestamp of the leaf are those of the block header the log came in (downloader conversion) *)
 Theorem downloader_conversion_update h idx mer rer :
